@@ -148,6 +148,7 @@ package rueidis
 //@ func RedisMessage.AsGeosearch
 //@   safety C15
 //@   assert [C16 coordinates-decode-in-both-reply-shapes] at append: (ran(cord) && (cord[0].typ == ',' || cord[0].typ == '$' || cord[0].typ == '+') && (cord[1].typ == ',' || cord[1].typ == '$' || cord[1].typ == '+')) ==> (loc.Longitude == first(util.ToFloat64(cord[0].string())) && loc.Latitude == first(util.ToFloat64(cord[1].string())))
+//@   assert [C16 the-name-is-the-first-field-of-an-entry] at append: (ran(info) ==> loc.Name == info[0].string()) && (!ran(info) ==> loc.Name == v.string())
 
 //@ func RedisMessage.AsXRangeSlice
 //@   safety C15
